@@ -529,6 +529,193 @@ def gen_cutoff(item="G3.calculate_cutoff"):
     return "\n".join(out)
 
 
+
+# ----------------------------------------------------------------------------- G6 : effect table (C09)
+ALLOC_PATTERNS = [
+    (r"\bVec::", "Vec::"), (r"\bvec!", "vec!"), (r"\.collect\b", ".collect"), (r"\.to_vec\(", ".to_vec("),
+    (r"\.to_owned\(", ".to_owned("), (r"\bBox::new\b", "Box::new"), (r"\bString\b", "String"), (r"\bformat!", "format!"),
+    (r"\.push\(", ".push("), (r"\bwith_capacity\b", "with_capacity"), (r"\.clone\(\)", ".clone()"),
+    (r"\.resize\(", ".resize("), (r"\.extend\w*\(", ".extend("), (r"\.process\(", ".process( (FFT without scratch)"),
+    (r"\bmake_scratch_vec\b", "make_scratch_vec"), (r"\.insert\(", ".insert("), (r"\bArc::new\b", "Arc::new"),
+    (r"\bplan_fft_\w+\(", "plan_fft"), (r"\bRealFftPlanner\b", "RealFftPlanner"), (r"\.to_string\(", ".to_string("),
+]
+RT_METHODS = ["process_into_buffer", "set_resample_ratio", "set_resample_ratio_relative", "set_chunk_size", "reset",
+              "input_frames_max", "input_frames_next", "output_frames_max", "output_frames_next", "output_delay",
+              "nbr_channels"]
+WRAPPERS = ["process", "process_partial_into_buffer", "process_partial"]
+RS_TYPES = ["FastFixedIn", "FastFixedOut", "SincFixedIn", "SincFixedOut", "FftFixedIn", "FftFixedOut", "FftFixedInOut"]
+RS_FILES = ["lib.rs", "asynchro_fast.rs", "asynchro_sinc.rs", "synchro.rs", "interpolation.rs", "sinc.rs", "windows.rs",
+            "sample.rs", "error.rs", "sinc_interpolator/mod.rs", "sinc_interpolator/sinc_interpolator_avx.rs",
+            "sinc_interpolator/sinc_interpolator_sse.rs", "sinc_interpolator/sinc_interpolator_neon.rs"]
+
+
+def strip_log_macros(body):
+    """remove trace!/debug!/info!/warn!/error! invocations (compiled out: the `log` feature is off)"""
+    out = []
+    i = 0
+    pat = re.compile(r"\b(trace|debug|info|warn|error)!\s*\(")
+    while True:
+        m = pat.search(body, i)
+        if not m:
+            out.append(body[i:])
+            break
+        out.append(body[i:m.start()])
+        depth = 0
+        j = m.end() - 1
+        while j < len(body):
+            if body[j] == "(":
+                depth += 1
+            elif body[j] == ")":
+                depth -= 1
+                if depth == 0:
+                    break
+            j += 1
+        i = j + 1
+    return "".join(out)
+
+
+def collect_functions(item):
+    """all fn items outside #[cfg(test)]: list of (owner type or '', name, body)"""
+    fns = []
+    for rel in RS_FILES:
+        path = os.path.join(SRC, rel)
+        if not os.path.exists(path):
+            raise TranslateError(item, f"source file {rel} missing")
+        src = strip_comments(open(path).read())
+        cut = src.find("#[cfg(test)]")
+        if cut >= 0:
+            src = src[:cut]
+        # impl blocks
+        spans = []
+        for m in re.finditer(r"\bimpl\b[^{;]*?\bfor\s+(\w+)[^{;]*\{|\bimpl\b\s*(?:<[^>]*>)?\s*(\w+)[^{;]*\{", src):
+            owner = m.group(1) or m.group(2)
+            try:
+                _, end = block_after(src, m.end() - 1, item)
+            except Exception:
+                continue
+            spans.append((m.end() - 1, end, owner))
+        # trait blocks (default methods)
+        for m in re.finditer(r"\btrait\s+(\w+)[^{;]*\{", src):
+            try:
+                _, end = block_after(src, m.end() - 1, item)
+            except Exception:
+                continue
+            spans.append((m.end() - 1, end, "trait " + m.group(1)))
+        for m in re.finditer(r"\bfn\s+(\w+)\b", src):
+            name = m.group(1)
+            # skip generics (nested angle brackets) up to the opening parenthesis of the parameter list
+            k = m.end()
+            adepth = 0
+            while k < len(src):
+                if src[k] == "<":
+                    adepth += 1
+                elif src[k] == ">":
+                    adepth -= 1
+                elif src[k] == "(" and adepth == 0:
+                    break
+                elif src[k] in "{;":
+                    break
+                k += 1
+            if k >= len(src) or src[k] != "(":
+                continue
+            k += 1
+            depth = 1
+            while k < len(src) and depth > 0:
+                if src[k] == "(":
+                    depth += 1
+                elif src[k] == ")":
+                    depth -= 1
+                k += 1
+            while k < len(src) and src[k] not in "{;":
+                k += 1
+            if k >= len(src) or src[k] == ";":
+                continue
+            body, _ = block_after(src, k, item)
+            owner = ""
+            best = None
+            for a, b, o in spans:
+                if a < m.start() < b and (best is None or a > best[0]):
+                    best = (a, o)
+            if best:
+                owner = best[1]
+            fns.append((owner, name, strip_log_macros(body), rel))
+    return fns
+
+
+def gen_effects(item="G6.effects"):
+    fns = collect_functions(item)
+    by_name = {}
+    for owner, name, body, rel in fns:
+        by_name.setdefault(name, []).append((owner, body, rel))
+    macro_bodies = {}
+    # macro implement_resampler! only forwards; its bodies are inside macro_rules and named like the trait methods
+
+    def closure(owner, name):
+        """crate functions reachable from owner::name, resolved by NAME (over-approximation)"""
+        start = [(o, b, r) for (o, b, r) in by_name.get(name, []) if o == owner]
+        if not start:
+            # default method of the trait
+            start = [(o, b, r) for (o, b, r) in by_name.get(name, []) if o == "trait Resampler"]
+        if not start:
+            raise TranslateError(item, f"{owner}::{name} not found")
+        seen = set()
+        sites = []
+        work = [(owner + "::" + name, b) for (o, b, r) in start]
+        while work:
+            qn, body = work.pop()
+            if qn in seen:
+                continue
+            seen.add(qn)
+            for pat, label in ALLOC_PATTERNS:
+                for _ in re.finditer(pat, body):
+                    sites.append(f"{qn}: {label}")
+            for m in re.finditer(r"\b([a-z_][a-z0-9_]*)\s*(?:::<[^>]*>)?\s*\(", body):
+                callee = m.group(1)
+                if callee in ("if", "while", "for", "match", "return", "as", "fn", "let", "in", "loop", "unsafe"):
+                    continue
+                # `.process(` on an FFT object is std-external; the crate's wrapper `process` is only reachable
+                # through an explicit self.process / Resampler::process call
+                pre = body[max(0, m.start() - 1):m.start()]
+                for (o, b, r) in by_name.get(callee, []):
+                    if callee in WRAPPERS and name not in WRAPPERS and not re.search(r"(self|Resampler::|rubato::Resampler::)\s*\.?\s*$", body[max(0, m.start() - 24):m.start()]):
+                        continue
+                    if callee == "new":
+                        # constructors are never called on the real-time path unless written as Type::new( — count them
+                        pass
+                    work.append(((o + "::" if o else "") + callee, b))
+        return seen, sites
+
+    lines = []
+    rt_rows = []
+    wr_rows = []
+    for ti, ty in enumerate(RS_TYPES):
+        for mi, mname in enumerate(RT_METHODS):
+            reach, sites = closure(ty, mname)
+            rt_rows.append((ti, mi, len(reach), len(sites), ty, mname, sites))
+        for mi, mname in enumerate(WRAPPERS):
+            reach, sites = closure(ty, mname)
+            wr_rows.append((ti, mi, len(reach), len(sites), ty, mname, sites))
+    out = ["/-- real-time methods: (type id, method id, crate functions reachable by name, allocating constructs on them).",
+           "    Functions are resolved by NAME over all non-test code of the crate (an over-approximation of the call graph);",
+           "    `trace!`/`debug!` invocations are removed (the `log` feature is off). -/",
+           "def rtTable : List (Nat × Nat × Nat × Nat) := ["]
+    rows = []
+    for ti, mi, nr, ns, ty, mname, sites in rt_rows:
+        rows.append(f"  ({ti}, {mi}, {nr}, {ns})  /- {ty}::{mname}" + ("  SITES: " + "; ".join(sites[:4]) if sites else "") + " -/")
+    out.append(",\n".join(rows) + "]")
+    out.append("")
+    out.append("/-- the allocating convenience wrappers, same columns -/")
+    out.append("def wrapperTable : List (Nat × Nat × Nat × Nat) := [")
+    rows = []
+    for ti, mi, nr, ns, ty, mname, sites in wr_rows:
+        rows.append(f"  ({ti}, {mi}, {nr}, {ns})  /- {ty}::{mname} -/")
+    out.append(",\n".join(rows) + "]")
+    out.append("")
+    out.append(f"def nTypes : Nat := {len(RS_TYPES)}")
+    out.append(f"def nRtMethods : Nat := {len(RT_METHODS)}")
+    return "\n".join(out)
+
+
 # ----------------------------------------------------------------------------- driver
 HEADER = """/-
 GENERATED by /verif/translate/rs2lean.py from /repo/src — do not edit.
@@ -570,6 +757,9 @@ def generate():
     parts.append("")
     parts.append(gen_cutoff())
     parts.append("end Win\n")
+    parts.append("namespace Effects")
+    parts.append(gen_effects())
+    parts.append("end Effects\n")
     parts.append("end Rubato.Gen")
     return "\n".join(parts) + "\n"
 
